@@ -468,7 +468,69 @@ def check_movevalue(pid, tier, seed):
     chk.finish()
 
 
-CHECKS = {"C09": check_magic, "C20": check_movevalue, "C08": check_hash, "C11": check_fen, "C12": check_san, "C01": check_rules, "C02": check_rules, "C10": check_rules, "C05": check_eval, "C13": check_eval}
+# ------------------------------------------------------------------------------ C15
+
+def check_tt(pid, tier, seed):
+    chk = Check(pid, tier, seed, "model_checking")
+    wd = workdir(pid)
+    wvbin = build()
+    quick = tier == "quick"
+    # 1. design: all interleavings of 2 threads x 3 ops on a small table; broken-lookup variant must fail
+    model_check(chk, "TT", cfg="TT" if quick else "TTBig", workers=8, timeout=3000)
+    model_check(chk, "TT", cfg="TTBroken", workers=4, expect_violation=True)
+    # 2. spec -> impl: behaviours of the specification (TLC simulation) executed on the real table
+    nsim = 6 if quick else 14
+    jobs = []
+    for i in range(nsim):
+        outp = os.path.join(wd, "ttgen_%02d.out" % i)
+        jobs.append(dict(module="TTGen", stdout_path=outp, extra=["-simulate", "num=%d" % (60 if quick else 400), "-depth", "600", "-seed", str(seed * 131 + i)], xmx="3g"))
+    res = tlc_many(jobs)
+    for r in res:
+        if r["rc"] != 0 or r["error"]:
+            sys.stderr.write(r.get("stdout", "")[-2000:])
+            tool_error("TTGen failed: %s" % r["error"])
+    traces = []
+    summ = {"behaviours": 0, "ops": 0, "inserts": 0, "finds": 0}
+    for i, j in enumerate(jobs):
+        tr = os.path.join(wd, "tt_seq_%02d.ndjson" % i)
+        o = json.loads(wv(wvbin, ["tt-seq", "--in", j["stdout_path"], "--out", tr]).strip().splitlines()[-1])
+        for k in summ:
+            summ[k] += o[k]
+        traces.append(tr)
+        os.remove(j["stdout_path"])
+    # 3. impl -> spec: real threads hammering one table
+    hsumm = {"runs": 0, "inserts": 0, "finds": 0}
+    cfgs = [(1, 1), (2, 2), (3, 1), (2, 3)]
+    k = 0
+    for threads in ([2, 4, 8, 16, 32] if quick else [2, 3, 4, 8, 12, 16, 24, 32]):
+        for pattern in ["aligned", "collide", "uniform"]:
+            for rep in range(1 if quick else 4):
+                t, b = cfgs[k % len(cfgs)]
+                k += 1
+                tr = os.path.join(wd, "tt_h_%03d.ndjson" % k)
+                o = json.loads(wv(wvbin, ["tt-hammer", "--threads", threads, "--ops", max(40, 1200 // threads), "--seed", seed * 977 + k, "--tables", t, "--buckets", b,
+                                          "--pattern", pattern, "--out", tr]).strip().splitlines()[-1])
+                hsumm["runs"] += 1
+                hsumm["inserts"] += o["inserts"]
+                hsumm["finds"] += o["finds"]
+                traces.append(tr)
+    res = tlc_many([dict(module="TTTrace", trace=t, xmx="4g", timeout=2400) for t in traces])
+    chk.add_tlc(res)
+    fold_diags(chk, res, pid)
+    for r in res:
+        for d in r["diags"]:
+            if d.get("prop") == "TOOL":
+                tool_error("recorded linearisation rejected: %s" % json.dumps(d))
+    sample = read_events(traces[0])[:4]
+    chk.coverage.update({"traces_validated_against_impl": len(traces), "events_validated": sum(r["accepted"] or 0 for r in res),
+                         "samples": sample, "spec_behaviours_replayed": summ, "concurrent_runs": hsumm,
+                         "evaluations": summ["ops"] + hsumm["inserts"] + hsumm["finds"], "distinct_nontrivial": summ["behaviours"] + hsumm["runs"],
+                         "rule": "TLC-simulated behaviours of TT.tla (3 threads x 60 ops over 15 keys of which 11 share one bucket of 8 slots) executed single- and multi-threaded on the real table; real threads (2..32) hammering tables of 1..3 sub-tables x 1..3 buckets with aligned/colliding/uniform keys; events linearised by the in-lock version counter and validated by TTTrace's subset construction"})
+    chk.assumptions += ["events are emitted inside insert/find while the sub-table lock is held (hook), so (table, version) is the linearisation order"]
+    chk.finish()
+
+
+CHECKS = {"C15": check_tt, "C09": check_magic, "C20": check_movevalue, "C08": check_hash, "C11": check_fen, "C12": check_san, "C01": check_rules, "C02": check_rules, "C10": check_rules, "C05": check_eval, "C13": check_eval}
 
 
 def main():
